@@ -264,9 +264,10 @@ def check_c18(v, d):
     sp = os.path.join(d, "sentences.ndjson")
     write_ndjson(sp, sents)
     # (1) accept / reject: sentences, seeded single-token mutations, sentences followed by further tokens,
-    #     all kind sequences up to length 2 (quick: plus a seeded 4% of length 3; thorough: all of length 3)
-    pargs = ["parse", "-in", sp, "-trailing", "-mutations", "4" if quick else "8", "-enum", "3",
-             "-enum-keep", "0.04" if quick else "1"]
+    #     every (expected token, offered kind) substitution, all kind sequences up to length 2 (quick: plus a
+    #     seeded 2% of length 3; thorough: all of length 3)
+    pargs = ["parse", "-in", sp, "-trailing", "-mutations", "2" if quick else "8", "-enum", "3",
+             "-enum-keep", "0.02" if quick else "1", "-subst-keep", "1"]
     ptrace, pst = run_driver("parsedrv", pargs, d, "parse")
     pres = validate("ParserTrace", gen, ptrace)
     # (2) statelessness: every base statement cut at every token position (and whole), then every probe, on ONE
